@@ -12,6 +12,7 @@
 #include <limits>
 #include <map>
 #include <new>
+#include <fstream>
 #include <sstream>
 #include <string>
 #include <tuple>
@@ -662,6 +663,11 @@ std::string EncBuf(const std::string& kind, std::size_t cap, std::size_t limit, 
   else if (kind == "ped") { nop::Serializer<nop::PedanticBufferWriter> s{ob.p, cap}; r = WriteWith(s, v); n = s.writer().size(); }
   else if (kind == "bbuf") { nop::BufferWriter w{ob.p, cap}; nop::Serializer<nop::BoundedWriter<nop::BufferWriter>> s{&w, limit}; r = WriteWith(s, v); n = w.size(); }
   else if (kind == "bped") { nop::PedanticBufferWriter w{ob.p, cap}; nop::Serializer<nop::BoundedWriter<nop::PedanticBufferWriter>> s{&w, limit}; r = WriteWith(s, v); n = w.size(); }
+  // the pointer and unique_ptr specialisations of Serializer
+  else if (kind == "pbuf") { nop::BufferWriter w{ob.p, cap}; nop::Serializer<nop::BufferWriter*> s{&w}; r = WriteWith(s, v); n = w.size(); }
+  else if (kind == "pped") { nop::PedanticBufferWriter w{ob.p, cap}; nop::Serializer<nop::PedanticBufferWriter*> s{&w}; r = WriteWith(s, v); n = w.size(); }
+  else if (kind == "ubuf") { nop::Serializer<std::unique_ptr<nop::BufferWriter>> s{std::make_unique<nop::BufferWriter>(ob.p, cap)}; r = WriteWith(s, v); n = s.writer().size(); }
+  else if (kind == "uped") { nop::Serializer<std::unique_ptr<nop::PedanticBufferWriter>> s{std::make_unique<nop::PedanticBufferWriter>(ob.p, cap)}; r = WriteWith(s, v); n = s.writer().size(); }
   else if (kind == "stream") { nop::Serializer<nop::StreamWriter<std::stringstream>> s; r = WriteWith(s, v); std::string o = s.writer().stream().str();
     return r + " n=" + std::to_string(o.size()) + " bytes=" + Hex(reinterpret_cast<const std::uint8_t*>(o.data()), o.size()); }
   else return "HARNESS-ERROR kind " + kind;
@@ -674,6 +680,9 @@ std::string EncBufTwice(const std::string& kind, std::size_t cap, const T& v) {
   std::string r1, r2; std::size_t n = 0;
   if (kind == "buf") { nop::Serializer<nop::BufferWriter> s{ob.p, cap}; r1 = WriteWith(s, v); r2 = WriteWith(s, v); n = s.writer().size(); }
   else if (kind == "ped") { nop::Serializer<nop::PedanticBufferWriter> s{ob.p, cap}; r1 = WriteWith(s, v); r2 = WriteWith(s, v); n = s.writer().size(); }
+  else if (kind == "pbuf") { nop::BufferWriter w{ob.p, cap}; nop::Serializer<nop::BufferWriter*> s{&w}; r1 = WriteWith(s, v); r2 = WriteWith(s, v); n = w.size(); }
+  else if (kind == "ubuf") { nop::Serializer<std::unique_ptr<nop::BufferWriter>> s{std::make_unique<nop::BufferWriter>(ob.p, cap)}; r1 = WriteWith(s, v); r2 = WriteWith(s, v); n = s.writer().size(); }
+  else if (kind == "uped") { nop::Serializer<std::unique_ptr<nop::PedanticBufferWriter>> s{std::make_unique<nop::PedanticBufferWriter>(ob.p, cap)}; r1 = WriteWith(s, v); r2 = WriteWith(s, v); n = s.writer().size(); }
   else return "HARNESS-ERROR kind " + kind;
   return "first=" + r1.substr(3) + " second=" + r2.substr(3) + " n=" + std::to_string(n) + " bytes=" + Hex(ob.p, n < cap ? n : cap);
 }
@@ -720,6 +729,9 @@ std::string DecBuf(const std::string& kind, const std::vector<std::uint8_t>& byt
   else if (kind == "ped") { nop::Deserializer<nop::PedanticBufferReader> d{in.p, in.n}; code = Code(d.Read(&h->v)); consumed = d.reader().capacity() - d.reader().remaining(); }
   else if (kind == "bbuf") { nop::BufferReader r{in.p, in.n}; nop::Deserializer<nop::BoundedReader<nop::BufferReader>> d{&r, limit}; code = Code(d.Read(&h->v)); consumed = r.capacity() - r.remaining(); }
   else if (kind == "bped") { nop::PedanticBufferReader r{in.p, in.n}; nop::Deserializer<nop::BoundedReader<nop::PedanticBufferReader>> d{&r, limit}; code = Code(d.Read(&h->v)); consumed = r.capacity() - r.remaining(); }
+  else if (kind == "pbuf") { nop::BufferReader r{in.p, in.n}; nop::Deserializer<nop::BufferReader*> d{&r}; code = Code(d.Read(&h->v)); consumed = r.capacity() - r.remaining(); }
+  else if (kind == "ubuf") { nop::Deserializer<std::unique_ptr<nop::BufferReader>> d{std::make_unique<nop::BufferReader>(in.p, in.n)}; code = Code(d.Read(&h->v)); consumed = d.reader().capacity() - d.reader().remaining(); }
+  else if (kind == "uped") { nop::Deserializer<std::unique_ptr<nop::PedanticBufferReader>> d{std::make_unique<nop::PedanticBufferReader>(in.p, in.n)}; code = Code(d.Read(&h->v)); consumed = d.reader().capacity() - d.reader().remaining(); }
   else if (kind == "stream" || kind == "bstream") {
     std::string sdata(reinterpret_cast<const char*>(in.p), in.n);
     if (kind == "stream") {
@@ -732,6 +744,23 @@ std::string DecBuf(const std::string& kind, const std::vector<std::uint8_t>& byt
       code = Code(d.Read(&h->v));
       if (!code) { auto pos = r.stream().tellg(); consumed = pos < 0 ? in.n : static_cast<std::size_t>(pos); }
     }
+  }
+  else if (kind == "fstream" || kind == "bfstream") {
+    // a file-backed stream: seeking past the end of a file does not fail, unlike a string stream
+    int fd = MemFd(bytes);
+    const std::string path = "/proc/self/fd/" + std::to_string(fd);
+    if (kind == "fstream") {
+      nop::Deserializer<nop::StreamReader<std::ifstream>> d{path, std::ios::in | std::ios::binary};
+      code = d.reader().stream().is_open() ? Code(d.Read(&h->v)) : -1000;
+      if (!code) { auto pos = d.reader().stream().tellg(); consumed = pos < 0 ? in.n : static_cast<std::size_t>(pos); }
+    } else {
+      nop::StreamReader<std::ifstream> r{path, std::ios::in | std::ios::binary};
+      nop::Deserializer<nop::BoundedReader<nop::StreamReader<std::ifstream>>> d{&r, limit};
+      code = r.stream().is_open() ? Code(d.Read(&h->v)) : -1000;
+      if (!code) { auto pos = r.stream().tellg(); consumed = pos < 0 ? in.n : static_cast<std::size_t>(pos); }
+    }
+    ::close(fd);
+    if (code == -1000) return "HARNESS-ERROR cannot open " + path;
   }
   else return "HARNESS-ERROR kind " + kind;
   if (code) return "st=" + std::to_string(code);
@@ -751,6 +780,9 @@ std::string LibOps(const std::vector<Sx>& a) {
       std::size_t cap = ParseInt<std::size_t>(a.at(3).a), limit = ParseInt<std::size_t>(a.at(4).a);
       if (kind == "buf2") return EncBufTwice<T>("buf", cap, h->v);
       if (kind == "ped2") return EncBufTwice<T>("ped", cap, h->v);
+      if (kind == "pbuf2") return EncBufTwice<T>("pbuf", cap, h->v);
+      if (kind == "ubuf2") return EncBufTwice<T>("ubuf", cap, h->v);
+      if (kind == "uped2") return EncBufTwice<T>("uped", cap, h->v);
       if (kind == "cx") return CxOps<T, Cx>::enc(cap, h->v);
       if (kind == "fd") return FdOps<T, Fd>::enc(h->v);
       return EncBuf<T>(kind, cap, limit, h->v);
